@@ -392,6 +392,20 @@ pub fn text(c: &Case) -> String {
         "contained-union" => body += &format!("P ::= {}\nA ::= {}", base(&first), base(&format!("(P | {})", expr_text(&c.cons[1], "assign", false)))),
         "contained-union-rev" => body += &format!("P ::= {}\nA ::= {}", base(&first), base(&format!("({} | P)", expr_text(&c.cons[1], "assign", false)))),
         "contained-inter" => body += &format!("P ::= {}\nA ::= {}", base(&first), base(&format!("(P ^ {})", expr_text(&c.cons[1], "assign", false)))),
+        // the contained subtype is a type without any constraint (plain, or with named numbers only): a union with it, or
+        // it EXCEPT something, is unconstrained; an intersection with it is the other operand
+        x if x.starts_with("free") => {
+            let parent = if x.contains("-nn-") { "P ::= INTEGER { one(1), two(2) }" } else { "P ::= INTEGER" };
+            let other = expr_text(&c.cons[0], "assign", false);
+            let e = match x.rsplit('-').next().unwrap_or("") {
+                "union" => format!("(P | {other})"),
+                "unionrev" => format!("({other} | P)"),
+                "inter" => format!("(P ^ {other})"),
+                "interrev" => format!("({other} ^ P)"),
+                _ => format!("(P EXCEPT {other})"),
+            };
+            body += &format!("{parent}\nA ::= {}", base(&e));
+        }
         // extension marker after the contained subtype
         "contained-ext" => body += &format!("P ::= {}\nA ::= {}", base(&all), base("(P, ...)")),
         "contained-includes" => body += &format!("P ::= {}\nA ::= {}", base(&all), base("(INCLUDES P)")),
@@ -513,7 +527,7 @@ impl Prop for C04 {
         "C04"
     }
     fn rule(&self) -> String {
-        "subtype expressions of 1..3 operands (single value or range with endpoints from {MIN,-3,0,2,5,9,MAX}; 32 operands) joined by | ^ EXCEPT without parentheses, ALL EXCEPT x, optional extension marker, 1..2 serial constraints, finite ranges also written with excluded endpoints (`a<..b`, `a..<b`, `a<..<b`), on INTEGER / BIT STRING / OCTET STRING / IA5String / SEQUENCE OF / SET OF (SIZE wrapping, non-negative operands), as type assignment, component, through a constrained parent reference, as the constraint of a SEQUENCE OF element or of a component whose type is a reference to the unconstrained type (INTEGER, OCTET STRING, SEQUENCE OF), as a contained subtype `(P)` / `(INCLUDES P)` alone and as an operand of a union / intersection with a second expression of a type carrying the expression (INTEGER and SIZE-constrained OCTET STRING), with value references and with named numbers as endpoints, both operator spellings. Oracle: exact set semantics on a 19-point universe (bit sets) for soundness, interval fold (hull/∩/EXCEPT ignored) under X.680 precedence for equality, marker⇔extensible. A case is non-trivial when it compiled cleanly and a bound (or its absence) was read from the item and compared.".into()
+        "(plus: a contained subtype without constraints — plain INTEGER or INTEGER with named numbers — as operand of | ^ EXCEPT on either side) subtype expressions of 1..3 operands (single value or range with endpoints from {MIN,-3,0,2,5,9,MAX}; 32 operands) joined by | ^ EXCEPT without parentheses, ALL EXCEPT x, optional extension marker, 1..2 serial constraints, finite ranges also written with excluded endpoints (`a<..b`, `a..<b`, `a<..<b`), on INTEGER / BIT STRING / OCTET STRING / IA5String / SEQUENCE OF / SET OF (SIZE wrapping, non-negative operands), as type assignment, component, through a constrained parent reference, as the constraint of a SEQUENCE OF element or of a component whose type is a reference to the unconstrained type (INTEGER, OCTET STRING, SEQUENCE OF), as a contained subtype `(P)` / `(INCLUDES P)` alone and as an operand of a union / intersection with a second expression of a type carrying the expression (INTEGER and SIZE-constrained OCTET STRING), with value references and with named numbers as endpoints, both operator spellings. Oracle: exact set semantics on a 19-point universe (bit sets) for soundness, interval fold (hull/∩/EXCEPT ignored) under X.680 precedence for equality, marker⇔extensible. A case is non-trivial when it compiled cleanly and a bound (or its absence) was read from the item and compared.".into()
     }
     fn selftest(&self) -> Result<u64, String> {
         // interval algebra vs brute force over the universe
@@ -661,6 +675,14 @@ impl Prop for C04 {
                 }
             }
         }
+        // a contained subtype without any constraint of its own as operand
+        for b in e1.iter() {
+            for nn in ["", "nn-"] {
+                for op in ["union", "unionrev", "inter", "interrev", "except"] {
+                    out.push(mk(vec![b.clone()], "INTEGER", &format!("free-{nn}{op}"), false, false));
+                }
+            }
+        }
         // contained subtypes: the expression sits on a referenced type (non-extensible expressions)
         for e in e1.iter().chain(e2.iter()) {
             for ctx in ["contained", "contained-includes", "contained-component", "contained-via-reference", "contained-ext"] {
@@ -762,11 +784,15 @@ impl Prop for C04 {
             }
         }
         let union_ctx = c.ctx.starts_with("contained-union");
-        let exact_all = if union_ctx { sems.iter().fold(0, |a, s| a | s.exact) } else { sems.iter().fold(ALL, |a, s| a & s.exact) };
+        let free_all = c.ctx.starts_with("free") && !c.ctx.contains("inter");
+        let exact_all = if free_all { ALL } else if union_ctx { sems.iter().fold(0, |a, s| a | s.exact) } else { sems.iter().fold(ALL, |a, s| a & s.exact) };
         if exact_all == 0 || sems.iter().any(|s| s.degenerate) {
             return CaseResult::skip("empty-or-degenerate");
         }
         let fold = |f: &dyn Fn(&Sem) -> Result<Iv, ()>| -> Result<Iv, ()> {
+            if free_all {
+                return Ok(Iv::R(None, None));
+            }
             if union_ctx {
                 // hull of the two operands
                 return Ok(iv_hull(f(&sems[0])?, f(&sems[1])?));
